@@ -99,15 +99,20 @@ theorem vecSmulwwSse_eq : vecSmulwwSse = vecSmulwwC := by
   | some v =>
     simp only [Option.map_some, Function.comp]
     have hd := Nat.mul_div_le (hi - lo) 4
-    by_cases h1 : lo ≤ j ∧ j < lo + 4 * ((hi - lo) / 4)
-    · have h2 : ¬ (lo + 4 * ((hi - lo) / 4) ≤ j ∧ j < lo + 4 * ((hi - lo) / 4) + (hi - lo - 4 * ((hi - lo) / 4))) := by omega
-      have h3 : lo ≤ j ∧ j < lo + (hi - lo) := by omega
-      simp [h1, h2, h3]
-    · by_cases h2 : lo + 4 * ((hi - lo) / 4) ≤ j ∧ j < lo + 4 * ((hi - lo) / 4) + (hi - lo - 4 * ((hi - lo) / 4))
-      · have h3 : lo ≤ j ∧ j < lo + (hi - lo) := by omega
-        simp [h1, h2, h3]
-      · have h3 : ¬ (lo ≤ j ∧ j < lo + (hi - lo)) := by omega
-        simp [h1, h2, h3]
+    generalize hm : 4 * ((hi - lo) / 4) = m at hd
+    by_cases a1 : lo ≤ j
+    · by_cases a2 : j < lo + m
+      · have a3 : ¬ (lo + m ≤ j) := by omega
+        have a4 : j < lo + (hi - lo) := by omega
+        simp [a1, a2, a3, a4]
+      · have a3 : lo + m ≤ j := by omega
+        by_cases a4 : j < lo + (hi - lo)
+        · have a5 : j < lo + m + (hi - lo - m) := by omega
+          simp [a1, a2, a3, a4, a5]
+        · have a5 : ¬ (j < lo + m + (hi - lo - m)) := by omega
+          simp [a1, a2, a3, a4, a5]
+    · have a3 : ¬ (lo + m ≤ j) := by omega
+      simp [a1, a3]
 
 theorem nsqScaleStatesSse_eq (inp : NsqScIn) (st : NsqSc) : nsqScaleStatesSse inp st = nsqScaleStatesC inp st := by
   unfold nsqScaleStatesSse nsqScaleStatesC
@@ -177,7 +182,10 @@ theorem maddSq_eq (x : Nat → Int) (k : Nat) : maddSq x k = vadSq (x (2 * k)) +
 theorem sqSum_eight (x : Nat → Int) (i : Nat) :
     sqSum x i 8 = vadSq (x i) + vadSq (x (i + 1)) + vadSq (x (i + 2)) + vadSq (x (i + 3)) + vadSq (x (i + 4)) +
       vadSq (x (i + 5)) + vadSq (x (i + 6)) + vadSq (x (i + 7)) := by
-  simp only [sqSum, Nat.add_assoc]; omega
+  simp only [sqSum]
+  have e : ∀ k : Nat, i + k + 1 = i + (k + 1) := by intro k; omega
+  simp only [e, Nat.reduceAdd]
+  omega
 
 /-- the four accumulator lanes together hold the sum of all squares seen so far, modulo 2^32. -/
 theorem vadAccLoop_eq (x : Nat → Int) (b i : Nat) (acc : Nat → Int) :
@@ -232,7 +240,9 @@ theorem vadEnergySse_eq (x : Nat → Int) (n : Nat) : vadEnergySse x n = vadEner
     rw [sqSum_add]; simp
   have hsum0 : wrap32 (0 + wrap32 (wrap32 (acc 0 + acc (0 + 2)) + wrap32 (acc 1 + acc (1 + 2)))) =
       wrap32 (sqSum x 0 (8 * (n / 8))) := by
-    rw [← hacc]; simp only [Nat.zero_add]; unfold wrap32; omega
+    rw [← hacc]
+    have e3 : (1 + 2 : Nat) = 3 := rfl
+    simp only [Nat.zero_add, e3]; unfold wrap32; omega
   by_cases hc : 0 < n - 8 * (n / 8)
   · have h := vadLoop_eq x (n - 8 * (n / 8)) (8 * (n / 8))
       (wrap32 (0 + wrap32 (wrap32 (acc 0 + acc (0 + 2)) + wrap32 (acc 1 + acc (1 + 2)))))
@@ -253,6 +263,10 @@ theorem sarRound64_eq_c_of_fits (a b : Int)
     sarRoundSmulww64 a b 8 = sarRoundSmulwwC a b 8 ∧ sarRoundSmulww64 a b 14 = sarRoundSmulwwC a b 14 := by
   unfold sarRoundSmulww64 sarRoundSmulwwC rshiftRound smulww
   generalize wrap32 a * wrap32 b = P at hfit ⊢
-  constructor <;> (simp only []; unfold wrap32; norm_num; omega)
+  have n8 : ((8 : Nat) = 1) = False := by decide
+  have n14 : ((14 : Nat) = 1) = False := by decide
+  constructor
+  · simp only [n8, if_false]; unfold wrap32; norm_num; omega
+  · simp only [n14, if_false]; unfold wrap32; norm_num; omega
 
 end Opus.Kernels
